@@ -305,13 +305,13 @@ def run(ctx):
   rs = []
   for i in range(0, len(states), 60):
     rs.append(dict(src='mc', cases=states[i:i + 60], seed=int(rng.integers(1 << 30))))
-  for i in range(8 if ctx.quick else 192):
+  for i in range(8 if ctx.quick else 400):
     rs.append(dict(src='random_matrices', n=60 if ctx.quick else 80, seed=int(rng.integers(1 << 30))))
-  for i in range(6 if ctx.quick else 120):
+  for i in range(6 if ctx.quick else 250):
     rs.append(dict(src='init_metric', n=3, seed=int(rng.integers(1 << 30))))
-  for i in range(4 if ctx.quick else 120):
+  for i in range(4 if ctx.quick else 250):
     rs.append(dict(src='pinv', n=60 if ctx.quick else 120, seed=int(rng.integers(1 << 30))))
-  for i in range(6 if ctx.quick else 120):
+  for i in range(6 if ctx.quick else 250):
     rs.append(dict(src='init_components', n=2, seed=int(rng.integers(1 << 30))))
   ctx.rule = ('all %d states of MC_PSD (sizes 2-3, spectra in -W..W, 6 exact orthogonal bases each) + random matrices of size '
               '1..8 with exact spectral certificate (pd / singular / indefinite / near-PSD inside and outside an explicit '
